@@ -95,7 +95,7 @@ def main(ctx):
     res = ctx.path("res.ndjson")
     ctx.harness(["replay", "C03", "--cases", allc, "--out", res], timeout=1500)
     summ = ctx.add_results(res)
-    if summ["checked"] != len(a) + len(s):
+    if summ["checked"] != len(a) + len(s) and not summ.get("aborted_after_failures"):
         raise vlib.Inconclusive("replayed %d of %d cases" % (summ["checked"], len(a) + len(s)))
     for need in ("sort", "rebatch", "filter", "divide", "distribute", "concat", "pair", "fragments", "merge", "sched", "sched/reproduced"):
         ctx.expect_vacuity("class " + need, ctx.classes.get(need, 0))
